@@ -222,6 +222,34 @@ CHECKS.update({
         ref='DESIGN.md §6 C20'),
 })
 
+CHECKS.update({
+    'C01': dict(
+        text='Theorems (Props/C01.lean), for every tree shape/depth, batch and leaf predictor: the explicit stack traversal of '
+             '_get_leaf_groups_and_models_on_samples (termination proved) equals the recursive grouping; concatenating per-group predictions '
+             'and restoring by argsort of the original positions returns, row by row in the caller\'s order, the predictor of the leaf reached by '
+             'the regenerated rule projection <= threshold applied to that row - hence permutation equivariance, concatenation/splitting '
+             'homomorphism, row-wise batch independence (also for the mean over trees) and independence of the leaf\'s internal batch size. '
+             'Tied to the code by the translator (Gen.Route) and by fitted models whose exported state is evaluated by an independent float64 '
+             'reference (routing, kernel expansion of the leaf reached, mean, decoding) under a computed rounding allowance; the discrete part '
+             '(groups, order, restore) is compared exactly with the Lean stack machine, including an exact-tie family.',
+        note=TB + 'The numeric leaf formula is tied by the correspondence only (kernel closed forms are C05, the codec C13); float32 rounding is '
+             'absorbed by the allowance of DESIGN 4.3 (up to ~1e-2 for the memory-light kernel); rows within rounding distance of a threshold '
+             'are excluded as the property allows. torch matmul/cdist/sort modelled, not verified.',
+        technique='Lean 4 proof (functional induction on the stack machine, List.Perm + merge-sort uniqueness) over regenerated routing code + float64 reference differential check',
+        ref='DESIGN.md §6 C01'),
+    'C11': dict(
+        text='Theorems (Props/C11.lean) over get_state_dict/load_state_dict as value plumbing with the wiring regenerated from the source '
+             '(Gen.State: which attribute is written under which key, which key is read back into which attribute, what is conditional on '
+             'classification, how centers are re-derived): every value predictions read (model level incl. the split temperature and the '
+             'label decoder, every split node, every leaf incl. centers = X_train[train_indices]) arrives unchanged in a fresh model, for '
+             'every number of trees and tree shape; the round trip can be iterated; exporting leaves the source untouched. Tied to the code by '
+             'the translator and by bit-exact predict/predict_proba comparisons of fitted models (direct and pickled state, two cycles).',
+        note=TB + 'Values are abstract in the model (tensor contents are never inspected); the C07 invariant centers = X[train_indices] is an '
+             'hypothesis of the theorem (proved for the construction in C07). Same constructor arguments assumed, as the property states.',
+        technique='Lean 4 proof (finite case analysis by rfl over regenerated wiring tables + induction on trees) + bit-exact differential check',
+        ref='DESIGN.md §6 C11'),
+})
+
 NOT_YET = {}
 
 
